@@ -213,8 +213,19 @@ func (c *expCompiler) ProcessUnOpExp(u ast.UnOp) {
 	})
 }
 
+// maxExpDepth is the maximum depth of an expression tree.  The parser limits the
+// nesting of brackets, unary operators, etc, but it builds trees of unlimited
+// depth for chains such as f()()(), a.b.c.d, x + y + z or x .. y .. z, and the
+// compiler is recursive, so this bounds the amount of Go stack it needs.
+const maxExpDepth = 10000
+
 func (c *expCompiler) CompileExp(e ast.ExpNode) {
+	c.expDepth++
+	if c.expDepth > maxExpDepth {
+		panic(Error{Where: e, Message: "expression too complex"})
+	}
 	e.ProcessExp(c)
+	c.expDepth--
 }
 
 //
